@@ -282,7 +282,8 @@ func (sc *scenario) buildAll() error {
 			return fmt.Errorf("conv %d: %v", f.ID, err)
 		}
 	}
-	var defs []am.Arg
+	// spare capacity on purpose: whatever a Call appends must not land in the defaults' backing array
+	defs := make([]am.Arg, 0, sc.Defaults+3)
 	for _, o := range sc.Opts[:sc.Defaults] {
 		defs = append(defs, sc.mkArg(o))
 	}
